@@ -959,6 +959,26 @@ def _helper_excludes_annotation_xml(ctx, pc):
     return False
 
 
+def input_type_hidden(ctx):
+    """'the token does not have an attribute with the name type, or it does but its value is not an ASCII case-insensitive match
+    for the string hidden': the helper answers true only for the attribute named type (no namespace) whose value is compared
+    with "hidden" ASCII case-insensitively"""
+    key, pcs = nfq.cells(ctx, TB, "TreeBuilder<Handle,Sink>::is_type_hidden")
+    bad = None
+    n = 0
+    for pc in nfq.feasible(pcs):
+        if str(pc["ret"]) == "false":
+            continue
+        n += 1
+        pos = " ".join(k for k, v in pc["guards"].items() if v is True) + " " + str(pc["ret"])
+        if "atom:type" not in pos and 'local_name!("type")' not in pos and "get_attribute" not in pos:
+            bad = bad or "answers true without having found the attribute named type"
+        low = pos.lower()
+        if not ('eq_ignore_ascii_case("hidden")' in pos or re.search(r'to_ascii_lowercase\(\)[^&|]*"hidden"', pos) or re.search(r'"hidden"[^&|]*to_ascii_lowercase', pos)):
+            bad = bad or "the value of type is not compared with \"hidden\" ASCII case-insensitively (%s): <input type=HIDDEN> in a table is foster-parented and clears the frameset-ok flag" % pos[-90:]
+    ctx.ob(RULE, "input-type-hidden-case-insensitive", bad is None and n >= 1, bad or "type == hidden, ASCII case-insensitively", "html5ever tree_builder is_type_hidden")
+
+
 def foreign_breakout(ctx):
     """a breakout start tag in foreign content ('pop ... until the current node is a MathML text integration point, an HTML
     integration point, or an element in the HTML namespace'): a pop happens only after all four stop conditions were found
@@ -991,7 +1011,7 @@ def foreign_breakout(ctx):
            "html5ever tree_builder unexpected_start_tag_in_foreign_content")
 
 
-FACTS = (foreign_breakout, small_helpers, dispatcher, marker_or_open, ignore_lf_one_token, insert_an_element, adoption_inner_loop, marker_bounded, in_scope, implied_end_tags, pop_until, appropriate_place, any_other_end_tag, clear_to_marker, close_the_cell, reconstruct, adoption_bailouts)
+FACTS = (input_type_hidden, foreign_breakout, small_helpers, dispatcher, marker_or_open, ignore_lf_one_token, insert_an_element, adoption_inner_loop, marker_bounded, in_scope, implied_end_tags, pop_until, appropriate_place, any_other_end_tag, clear_to_marker, close_the_cell, reconstruct, adoption_bailouts)
 
 
 def run(ctx):
